@@ -36,10 +36,17 @@ func (x *Exec) verifyFunction(f *ssa.Function) (rep FuncReport) {
 	before := len(x.checks)
 	x.curFn, x.curC = f, c
 	x.paths, x.retPaths = 0, 0
+	x.softErr = ""
 	defer func() {
 		rep.Paths = x.paths
 		rep.Returns = x.retPaths
 		rep.Checks = len(x.checks) - before
+		if x.softErr != "" {
+			// a loop invariant that cannot be stated on the code as it is now (the loop structure or a name it
+			// uses changed) is skipped - fewer assumptions, so every other verdict stands - and the function is
+			// reported as undecided unless another obligation fails
+			rep.Err = "contract error (invariant skipped): " + x.softErr
+		}
 		if r := recover(); r != nil {
 			x.checks = x.checks[:before]
 			switch e := r.(type) {
